@@ -230,7 +230,7 @@ class LibsModel:
             fac = args[0] if args else None
             el = None
             if fac is not None and fac.ty == 'builtin' and fac.name == 'list':
-                el = AV(ty='list', elts=None, fresh=True)
+                el = AV(ty='list', elts=[], fresh=True)
             elif fac is not None and fac.ty == 'lambda':
                 el = interp.call_lambda(fac, [], {}, st, node)
             return AV(ty='dict', defaultdict=True, elem=el, deps=d, fresh=True)
@@ -851,6 +851,8 @@ class LibsModel:
             if k is not None and has_const(k) and isinstance(cval(k), str) and recv.open_kw:
                 # one entry of a **kwargs mapping: depends on that entry, not on the whole mapping
                 d = frozenset((x + f'[{cval(k)}]') if (x.startswith('param:') and '#' not in x and '[' not in x and x in (recv.deps or ())) else x for x in d)
+            if el is not None and el.ty in ('list', 'tuple') and dflt.ty in ('list', 'tuple') and dflt.elts == []:
+                return el.w(maybe_empty=True, deps=d)  # d.get(k, ()) of a mapping to sequences
             got = None
             if node is not None and isinstance(node.func, ast.Attribute) and node.args:
                 got = (interp.sx_build(node.func.value), interp.sx(node.args[0]), cval(dflt) if has_const(dflt) else '?')
